@@ -7,7 +7,7 @@ import conc
 import driver
 
 PROPERTIES_FILE = "Properties/Properties_C01_root.v"
-COQ_DEPS = ["Proofs/RootQ_wake_proofs.vo", "Proofs/RootQR_proofs.vo", "Extract/Extract_rootq.vo"]
+COQ_DEPS = ["Proofs/RootQ_wake_proofs.vo", "Proofs/RootQ_live_proofs.vo", "Proofs/RootQR_proofs.vo", "Extract/Extract_rootq.vo"]
 GEN_MODULES = ["Gen_rootq"]
 LEVEL = "proof"
 TRUSTED = [
@@ -22,13 +22,19 @@ TRUSTED = [
     "atomicity: each os_atomic_* operation is one step; interleaving semantics is sequentially consistent",
     "abstractions: spin counts / sleep times of the contended wait and the 5 s semaphore timeout are choices; pthread_create "
     "eventually succeeds; one item per push (dispatch_apply's batch push is not modelled); an object is pushed only while it "
-    "is not enqueued (allocator / lane ENQUEUED protocol); no successor where the C code crashes or an int would wrap",
+    "is not enqueued (allocator / lane ENQUEUED protocol); no successor where the C code crashes",
+    "counters: that dgq_pending stays below INT_MAX and dsema_value inside (LONG_MIN, LONG_MAX) is NOT proved: RootQ.effect has "
+    "guards that give no successor at these limits (PPendReq / PCwEval add, PSemDec), and the theorems that need a successor "
+    "carry the premise (bounded in C01_root_progress, sval < LONG_MAX in C01_root_monitor_repairs); what IS proved is "
+    "pend = number of threads between their request and their decrement, pool in [-2^29, initial size] "
+    "(C01_root_monitor_grows_pool (3)); poke floors are assumed in [-2^29, 0] (RootQ.floor_ok: pool size <= 255)",
     "the monitor: its timer fires every second (dispatch source on the manager queue) and _dispatch_workq_count_runnable_workers "
     "reports a thread blocked in a system call as not runnable (/proc/<tid>/stat state != 'R'): hypotheses of "
-    "C01_root_monitor_grows_pool, exercised by the blocked-pool oracle run",
+    "C01_root_monitor_grows_pool / C01_root_monitor_repairs, exercised by the blocked-pool oracle run and the forced stall run",
 ]
-ASSUMPTIONS = ["fair scheduling of the threads named by C01_root_no_lost_wakeup (it shows which thread is responsible for "
-               "the next look at the queue, not when it is scheduled)",
+ASSUMPTIONS = ["fair scheduling of the threads named by C01_root_unclaimed_item_cases (1)-(4) and C01_root_spin_waits (they show "
+               "which thread is responsible for the next look at the queue, not when it is scheduled); in shapes (5) STALL and "
+               "(6) ALL-BUSY no thread is responsible: only the monitor (C01_root_monitor_repairs) or a returning item helps",
                "pthread_create succeeds eventually; the monitor timer fires; /proc reports blocked threads as not runnable"]
 
 MED = (1 << 64) - 1
